@@ -149,7 +149,7 @@ class Prop:
     ADV_OPS = ["set", "set", "set", "get", "del", "list", "dict", "event", "prop", "deleg",
                "add_trait", "remove_trait", "pickle", "clone", "ctrait", "setq", "items_event",
                "reg", "unreg", "gc", "child", "evil_drop", "bad_set", "trait_set", "reset",
-               "helper", "helper", "orig_default"]
+               "helper", "helper", "orig_default", "default_fails", "default_fails"]
 
     def gen_adv(self, seed):
         r = stream(seed, "adv")
@@ -189,7 +189,11 @@ class Prop:
             if envs:
                 op["env"] = envs
             ops.append(op)
-        return {"config": {"storm": storm}, "ops": ops}
+        # how the interpreter treats warnings (traits turns an AttributeError of a default
+        # method into a warning plus the error): silenced, raised as errors, or shown
+        return {"config": {"storm": storm,
+                           "warnings": r.choice(["ignore", "ignore", "error", "always"])},
+                "ops": ops}
 
     def run_adv(self, trace, env):
         import traits.api as T
@@ -252,6 +256,11 @@ class Prop:
         def _set_p(obj, v):
             env.point("setter:p")
             obj.__dict__["_pv"] = v
+        def _af_default(obj):
+            # a default method that fails (AttributeError is turned into a warning plus
+            # the error by the compiled layer)
+            raise exc_class(holder.get("af_exc", "AttributeError"))("no such thing")
+
         def _hx_default(obj):
             env.point("default:hx")
             return [Evil(98)]
@@ -271,6 +280,7 @@ class Prop:
                 "ex": T.Expression(), "_ex_default": lambda obj: "1 + %d" % (len(holder["keep"]) + 7),
                 "sup": T.Supports(T.Interface), "_sup_default": lambda obj: None,
                 "ph": T.PrototypedFrom("helper", prefix="hx"),
+                "af": T.Any(), "_af_default": _af_default,
                 "_dflt_default": _dflt_default, "_get_p": _get_p, "_set_p": _set_p,
                 "_get_cp": T.cached_property(lambda obj: (env.point("getter:cp"), obj.a)[1]),
                 "_a_changed": lambda obj, old, new: st1(), "_l_items_changed": lambda obj, ev: st2(),
@@ -299,11 +309,14 @@ class Prop:
             gc.disable()
         self._adv_cleanup = done
         depth = [0]
+        wmode = cfg.get("warnings", "ignore")
 
         def safe(f, *a, **k):
             try:
                 with warnings.catch_warnings():
-                    warnings.simplefilter("ignore")
+                    warnings.simplefilter(wmode)
+                    if wmode == "always":
+                        warnings.showwarning = lambda *a2, **k2: None    # (kept off the log)
                     return f(*a, **k)
             except RecursionError:
                 return None
@@ -313,7 +326,8 @@ class Prop:
         def obj(j):
             live = [x for x in holder["objs"] if x is not None]
             if not live:
-                holder["objs"][0] = Adv()
+                # (construction itself may raise once the class traits were fuzzed)
+                holder["objs"][0] = safe(Adv) or T.HasTraits()
                 live = [holder["objs"][0]]
             return live[j % len(live)]
 
@@ -408,18 +422,56 @@ class Prop:
                 safe(setattr, o, "ro", v)
                 safe(setattr, o, "ro", v)
                 safe(setattr, o, "cp", v)
+            elif k == "default_fails":
+                # a failing default method met by a first read, by a first assignment with
+                # a listener (the old value is wanted) and by a deletion; the exception is
+                # looked at the way a caller would (its cause and context, a formatted
+                # traceback) before it is dropped
+                holder["af_exc"] = ["AttributeError", "AttributeError", "ValueError",
+                                    "TraitError"][op["n"] % 4]
+
+                def looked_at(f, *a2):
+                    try:
+                        with warnings.catch_warnings():
+                            warnings.simplefilter(wmode)
+                            if wmode == "always":
+                                warnings.showwarning = lambda *a3, **k3: None
+                            f(*a2)
+                    except RecursionError:
+                        pass
+                    except Exception as exc:      # noqa: BLE001
+                        import traceback as _tb
+                        repr(exc), repr(exc.__cause__), repr(exc.__context__)
+                        _tb.format_exception(type(exc), exc, exc.__traceback__)
+                # (in this world earlier ops may have left the class in a state in which
+                # even construction raises: any Python exception is a legal outcome)
+                fresh_o = safe(Adv)
+                if fresh_o is not None:
+                    looked_at(getattr, fresh_o, "af")
+                    looked_at(getattr, fresh_o, "af")
+                fresh_o2 = safe(Adv)
+                if fresh_o2 is not None:
+                    safe(fresh_o2.on_trait_change, H("af"), "af")
+                    looked_at(setattr, fresh_o2, "af", v)
+                    looked_at(delattr, fresh_o2, "af")
+                del fresh_o, fresh_o2
             elif k == "orig_default":
                 # first reads / assignments / deletions on fresh objects (defaults not yet
                 # computed) of the original-value traits
-                fresh_o = Adv()
-                safe(getattr, fresh_o, "ex")
-                safe(getattr, fresh_o, "ex_")
-                safe(getattr, fresh_o, "sup")
-                fresh_o2 = Adv()
-                fresh_o2.on_trait_change(H("ex"), "ex")
-                safe(setattr, fresh_o2, "ex", "2 + 2")
-                safe(delattr, fresh_o2, "ex")
-                safe(getattr, fresh_o2, "ex")
+                # (the attribute fuzz works on SHALLOW copies of trait definitions, which
+                # share their metadata dictionary with the class trait: after it even
+                # construction may raise - any Python exception is a legal outcome here)
+                fresh_o = safe(Adv)
+                if fresh_o is not None:
+                    safe(getattr, fresh_o, "ex")
+                    safe(getattr, fresh_o, "ex_")
+                    safe(getattr, fresh_o, "sup")
+                fresh_o2 = safe(Adv)
+                if fresh_o2 is not None:
+                    safe(fresh_o2.on_trait_change, H("ex"), "ex")
+                    safe(setattr, fresh_o2, "ex", "2 + 2")
+                    safe(delattr, fresh_o2, "ex")
+                    safe(getattr, fresh_o2, "ex")
                 del fresh_o, fresh_o2
             elif k == "helper":
                 safe(setattr, o, "helper", Hx())
@@ -629,7 +681,7 @@ class Prop:
                "validator_raises", "handler_raises", "readonly", "readonly_again", "trait_set",
                "setq", "add_trait_set", "clone_drop", "pickle_drop", "default_read", "tuple_set",
                "tuple_convert", "tuple_convert", "union_set", "either_set", "instance_set",
-               "event_quiet", "quiet_mix"]
+               "event_quiet", "quiet_mix", "numeric", "numeric"]
 
     def gen_ref(self, seed):
         r = stream(seed, "ref")
@@ -677,6 +729,14 @@ class Prop:
                 "ei": T.Either(T.Str(), T.Instance(Sent)), "ins": T.Instance(Sent),
                 "partner": T.Instance(T.HasTraits), "dv": T.DelegatesTo("partner", prefix="a2"),
                 "a2": T.Any(),
+                # numeric validators, alone and as alternatives of compound traits
+                "rg": T.Range(0.0, 1.0), "ri": T.Range(0, 10),
+                "er": T.Either(T.Range(0.0, 1.0), T.Str()),
+                "ef": T.Either(T.Range(0.0, 1.0), T.Float()),
+                "eir": T.Either(T.Range(0, 10), T.Str()),
+                "eii": T.Either(T.Range(0, 10), T.Int()),
+                "efs": T.Either(T.Float(), T.Str()), "eis": T.Either(T.Int(), T.Str()),
+                "trg": T.Tuple(T.Range(0.0, 1.0), T.Any()),
                 "_get_p": _get_p, "_set_p": _set_p, "_a_changed": h_static,
             })
         objs = [R(), R()]
@@ -869,6 +929,45 @@ class Prop:
                     if e is None:
                         hold((oi, "ins"), [j])
                     _, e2 = sut(setattr, o, "ins", "no")
+                elif k == "numeric":
+                    # fresh numbers and strings (exact float / int / str objects) offered to
+                    # numeric validators: accepted, rejected, or handed on to the next
+                    # alternative - the value's reference count moves by what is stored
+                    nn = op["n"] + 4 * i
+                    fresh = [float(1000 + nn) + 0.25, 0.25 + nn / 1000.0, 10 ** 12 + nn,
+                             3 + nn % 5 + 0, "s%d" % nn, -(float(nn) + 2.5)]
+                    for tname in ("rg", "ri", "er", "ef", "eir", "eii", "efs", "eis", "trg"):
+                        for fv in fresh:
+                            rc0 = sys.getrefcount(fv)
+                            if rc0 > (1 << 28):
+                                continue        # an immortal object (small int): no count
+                            val = (fv, None) if tname == "trg" else fv
+                            sut(setattr, o, tname, val)
+                            cur = o.__dict__.get(tname)
+                            if tname == "trg":
+                                stored = isinstance(cur, tuple) and cur[0] is fv
+                            else:
+                                stored = cur is fv
+                            val = cur = None
+                            got = sys.getrefcount(fv) - rc0
+                            env.oracle_evals += 1
+                            if got != (1 if stored else 0):
+                                raise Violation("C18.refcount",
+                                                "after %s = %s(...): the value passed in is "
+                                                "referenced %d times more than before, the "
+                                                "resulting state holds it %d times (%s)"
+                                                % (tname, type(fv).__name__, got,
+                                                   1 if stored else 0,
+                                                   "leak" if got > (1 if stored else 0)
+                                                   else "missing reference"), i)
+                            sut(delattr, o, tname)
+                            if sys.getrefcount(fv) != rc0:
+                                raise Violation("C18.refcount",
+                                                "after %s = %s(...) and del: the value is still "
+                                                "referenced %d times more than before"
+                                                % (tname, type(fv).__name__,
+                                                   sys.getrefcount(fv) - rc0), i)
+                    fresh = fv = None
                 elif k == "tuple_set":
                     _, e = sut(setattr, o, "tp", (s, 1))
                     if e is None:
